@@ -151,40 +151,71 @@ def _const(v):
 
 def rule_forwarding(ctx):
     """C14.b: FakeSnow options reach the constructor; patch()/server forward theirs."""
+    from ..interp import Hooks, explore
+    from ..values import Const, Dct, Obj, Sym, tagof
+
     prog = ctx.prog
     m = prog.mod("instance")
     fn = prog.fn("instance", "FakeSnow.connect")
     ctx.analysed("instance.FakeSnow.connect", "instance.FakeSnow.__init__", "__init__.patch")
     init = prog.fn("instance", "FakeSnow.__init__")
-    ctor_params = [a.arg for a in prog.fn("conn", "FakeSnowflakeConnection.__init__").args.args]
-    calls = [c for c in ast.walk(fn) if isinstance(c, ast.Call) and _is_conn_ctor(prog, m, c)]
-    ctx.floor("FakeSnowflakeConnection construction sites in FakeSnow.connect", len(calls), 1)
-    # what __init__ stores: option -> attribute
-    stored = {}
-    for s in ast.walk(init):
-        if isinstance(s, ast.Assign) and isinstance(s.targets[0], ast.Attribute) and isinstance(s.value, ast.Name):
-            stored[s.value.id] = s.targets[0].attr
-    want = {"create_database": "create_database_on_connect", "create_schema": "create_schema_on_connect",
-            "db_path": "db_path", "nop_regexes": "nop_regexes"}
-    connect_params = [a.arg for a in fn.args.args]
-    for call in calls:
-        bound = _bind_call(call, ctor_params)
-        for ctor_arg, opt in want.items():
-            attr = stored.get(opt)
-            v = bound.get(ctor_arg)
-            ok = attr is not None and v is not None and norm(v) == f"self.{attr}"
-            ctx.ob("C14.b", f"option {opt} -> constructor {ctor_arg}", ok, m.loc(call))
-            if not ok:
-                ctx.violation("C14.b", "instance", "FakeSnow.connect", call, m.loc(call),
-                              f"instance option `{opt}` does not reach the connection constructor's `{ctor_arg}` "
-                              f"(got `{norm(v) if v is not None else 'nothing'}`)")
-        for pos, p in (("database", "database"), ("schema", "schema")):
-            v = bound.get(pos)
-            ok = v is not None and isinstance(v, ast.Name) and v.id == p and p in connect_params
-            ctx.ob("C14.b", f"connect argument {p} -> constructor {pos}", ok, m.loc(call))
-            if not ok:
-                ctx.violation("C14.b", "instance", "FakeSnow.connect", call, m.loc(call),
-                              f"connect argument `{p}` does not reach the constructor's `{pos}`")
+    ctor = prog.fn("conn", "FakeSnowflakeConnection.__init__")
+    ctor_params = [a.arg for a in ctor.args.args][1:]
+
+    class H(Hooks):
+        def __init__(self):
+            self.ctor_calls = []
+
+        def external(self, I, d, args, kwargs, site):
+            if d == "duckdb.connect":
+                return Obj("instance_duck", kind="duck")
+            if d in ("threading.Lock", "threading.RLock"):
+                return Obj("lock", kind="lock")
+            return NotImplemented
+
+        def intercept(self, I, key, args, kwargs, site, f=None):
+            if key == "conn.FakeSnowflakeConnection.__init__":
+                bound = dict(zip(ctor_params, args))
+                bound.update({k: v for k, v in kwargs.items() if k != "**"})
+                self.ctor_calls.append((bound, site))
+                return Const(None)
+            return NotImplemented
+
+    opts = {"create_database_on_connect": "create_database", "create_schema_on_connect": "create_schema", "db_path": "db_path", "nop_regexes": "nop_regexes"}
+    hooks = []
+
+    def fac():
+        h = H()
+        hooks.append(h)
+        return h
+
+    def run(I):
+        from ..values import ClsRef
+        fs = I.construct(ClsRef("fakesnow.instance.FakeSnow"), [], {o: Sym(f"OPT:{o}") for o in opts}, None)
+        return I.call(I.getattr(fs, "connect"), [Sym("ARG:database", typ="str", truthy=True), Sym("ARG:schema", typ="str", truthy=True)], {}, None)
+
+    n_sites = 0
+    for p, h in zip(explore(prog, fac, run, max_paths=16), hooks):
+        for bound, site in h.ctor_calls:
+            n_sites += 1
+            loc = m.loc(site) if site is not None else m.loc(fn)
+            for opt, ctor_arg in opts.items():
+                v = bound.get(ctor_arg)
+                ok = isinstance(v, Sym) and v.tag == f"OPT:{opt}"
+                ctx.ob("C14.b", f"option {opt} -> constructor {ctor_arg}", ok, loc)
+                if not ok:
+                    ctx.violation("C14.b", "instance", "FakeSnow.connect", f"option {opt} reaches the constructor as {tagof(v)[:60] if v is not None else 'nothing'}", loc,
+                                  f"instance option `{opt}` does not reach the connection constructor's `{ctor_arg}` unchanged "
+                                  f"(got `{tagof(v)[:80] if v is not None else 'nothing'}`)")
+            for pos in ("database", "schema"):
+                v = bound.get(pos)
+                ok = isinstance(v, Sym) and v.tag == f"ARG:{pos}"
+                ctx.ob("C14.b", f"connect argument {pos} -> constructor {pos}", ok, loc)
+                if not ok:
+                    ctx.violation("C14.b", "instance", "FakeSnow.connect", f"connect argument {pos} reaches the constructor as {tagof(v)[:60] if v is not None else 'nothing'}", loc,
+                                  f"connect argument `{pos}` does not reach the constructor's `{pos}`")
+        break
+    ctx.floor("FakeSnowflakeConnection constructions reached from FakeSnow.connect", n_sites, 1)
     # patch() forwards its options to FakeSnow
     pm = prog.mod("__init__")
     pf = prog.fn("__init__", "patch")
